@@ -615,7 +615,7 @@ def reorder_tasks(tier, role):
 
 # ------------------------------------------------------------------------------------ time-driven windows (C14)
 
-def time_window_harness(w, kind, size, slide, max_len):
+def time_window_harness(w, kind, size, slide, max_len, iters=1):
     """kind: 'session' (size = gap) | 'processing' (size, slide); durations and instants are u64 ticks.
     The clock returns base + arbitrary non-decreasing offsets (each step 0..2*size+1 ticks)."""
     if kind == 'session':
@@ -633,7 +633,7 @@ def time_window_harness(w, kind, size, slide, max_len):
         args = [Int('u64', size)] + ([Int('u64', slide)] if kind == 'processing' else [])
         descr = ex.call_function(new, args)
         mgr = ex.call_function(build, [Ref([descr], 0), ListAcc()])
-        script = hlib.gen_script(ex, 1, max_len, 'I', payload=id_payload)
+        script = hlib.gen_script(ex, iters, max_len, 'I', payload=id_payload)
         # one clock reading per process() call
         clock, t = [], Int('u64', 1000)
         for i in range(len(script)):
@@ -664,10 +664,25 @@ def time_window_harness(w, kind, size, slide, max_len):
         ids = [e.fields[0].v for e in script if e.variant == 'Item']
         tick = {e.fields[0].v: clock[i] for i, e in enumerate(script) if e.variant == 'Item'}
         cnt = {i: 0 for i in ids}
+        # iteration of every call (the FlushAndRestart call closes its own iteration) and of every element:
+        # the managers of these windows are kept across iterations (WindowManager::recycle is false), so the
+        # second iteration runs on the state the first one left behind
+        call_iter, it = [], 0
+        for e in script:
+            call_iter.append(it)
+            if e.variant == 'FlushAndRestart':
+                it += 1
+        item_iter = {e.fields[0].v: call_iter[i] for i, e in enumerate(script) if e.variant == 'Item'}
+        if iters > 1 and len(set(item_iter.values())) > 1:
+            hlib.cover(ex, 'two_iterations')
         results = []
         for i, rs in outs:
             for r in rs:
                 items = [x.v for x in r.fields[0].items]
+                for x in items:
+                    if x in item_iter and item_iter[x] != call_iter[i]:
+                        raise Violation('window result emitted in iteration %d contains an element of iteration %d' %
+                                        (call_iter[i], item_iter[x]), hlib._wit(ex), sx())
                 if not items:
                     raise Violation('empty window result', hlib._wit(ex), sx())
                 if items != sorted(items) or len(set(items)) != len(items):
@@ -690,6 +705,8 @@ def time_window_harness(w, kind, size, slide, max_len):
             # session semantics away from the boundary: gap exceeded => split, gap not reached => same session
             sess = {x: k for k, its in enumerate(results) for x in its}
             for a, b in zip(ids, ids[1:]):
+                if item_iter[a] != item_iter[b]:
+                    continue
                 diff = tick[b].z() - tick[a].z()
                 if sess[a] == sess[b]:
                     check(ex, z3.ULE(diff, size), 'two elements further apart than the gap share a session', sx)
@@ -708,6 +725,14 @@ def time_window_tasks(tier, role):
     cfgs = [('session', 3, 0), ('processing', 3, 3), ('processing', 4, 2)]
     if tier != 'quick':
         cfgs += [('session', 1, 0), ('processing', 3, 1), ('processing', 5, 2)]
+    for kind, size, slide in cfgs[:3]:
+        L2 = [2, 2] if tier == 'quick' else [3, 2]
+        ts.append(Task('%s_z%d_s%d_2iter' % (kind, size, slide), 'time_window_harness',
+                       {'kind': kind, 'size': size, 'slide': slide, 'max_len': L2, 'iters': 2},
+                       bounds='%s window manager kept across iterations, size/gap=%d slide=%d ticks; 2 iterations x <=%s '
+                              'items; the clock returns arbitrary non-decreasing instants (each step 0..%d ticks, symbolic)' %
+                              (kind, size, slide, L2, 2 * size + 1), role=role, opts={'covers': ['two_iterations']},
+                       budget=300))
     for kind, size, slide in cfgs:
         ts.append(Task('%s_z%d_s%d' % (kind, size, slide), 'time_window_harness',
                        {'kind': kind, 'size': size, 'slide': slide, 'max_len': L},
